@@ -302,10 +302,40 @@ def run_lean(lines, lean_path_prefix=None):
     return p.stdout.splitlines(), p.stderr[-2000:]
 
 
-def validate(seed=1, size="quick", lean_path_prefix=None):
-    reqs = requests(seed, size)
-    with contextlib.redirect_stdout(io.StringIO()):
-        want = [f() for _, f in reqs]
+def validate_cached(tier, seed=1):
+    """translator validation for this (repo, lean) state: the full request set in the thorough tier, every 6th
+    request in the quick tier; cached (the answer depends on nothing else)"""
+    import json
+    key = core.repo_hash() + "-" + core.lean_hash()[:10] + "-" + _hash_self()
+    full = os.path.join(core.CACHE, "genval-full-%s.json" % key)
+    part = os.path.join(core.CACHE, "genval-part-%s.json" % key)
+    if os.path.exists(full):
+        with open(full) as f:
+            return json.load(f)
+    if tier == "quick" and os.path.exists(part):
+        with open(part) as f:
+            return json.load(f)
+    r = validate(seed, "quick", stride=(1 if tier != "quick" else 6))
+    r["scope"] = "all requests" if tier != "quick" else "every 6th request (the thorough tier runs all)"
+    os.makedirs(core.CACHE, exist_ok=True)
+    with open(full if tier != "quick" else part, "w") as f:
+        json.dump(r, f)
+    return r
+
+
+def _hash_self():
+    import hashlib
+    with open(os.path.abspath(__file__), "rb") as f:
+        return hashlib.sha256(f.read()).hexdigest()[:8]
+
+
+def validate(seed=1, size="quick", lean_path_prefix=None, stride=1):
+    import warnings
+    with warnings.catch_warnings():
+        warnings.simplefilter("ignore")
+        reqs = requests(seed, size)[::stride]
+        with contextlib.redirect_stdout(io.StringIO()):
+            want = [f() for _, f in reqs]
     got, err = run_lean([r for r, _ in reqs], lean_path_prefix)
     bad = []
     if len(got) != len(reqs):
